@@ -1149,6 +1149,32 @@ pub mod unit {
                 burn_post(old(api).state(), final(api).state(), bucket.0.0, ret is Ok),
         @*/
         // ------------------------------------------------------------------------------ DATA --
+        /*@fn radix-engine/src/blueprints/resource/non_fungible/non_fungible_resource_manager.rs :: impl NonFungibleResourceManagerBlueprint :: fn drop_empty_bucket
+        @sig
+            requires
+                old(api).state().objects.contains_key(bucket.0.0) ==> is_nf_bucket(old(api).state().objects[bucket.0.0]),
+            ensures
+                // only a bucket holding no id (and backing no proof) can be dropped without burning
+                ret is Ok ==> ({
+                    let s0 = old(api).state(); let s1 = final(api).state();
+                    &&& s0.objects.contains_key(bucket.0.0)
+                    &&& bucket_ids(s0.objects[bucket.0.0]).len() == 0
+                    &&& bucket_locks(s0.objects[bucket.0.0]).dom().len() == 0
+                    &&& s1 == (State { objects: s0.objects.remove(bucket.0.0), ..s0 })
+                }),
+                // a bucket that was dropped while still holding ids is reported, never silently lost
+                (old(api).state().objects.contains_key(bucket.0.0) && bucket_ids(old(api).state().objects[bucket.0.0]).len() > 0) ==> ret is Err,
+                // ids, supply, features, handles are never touched
+                final(api).state().kv == old(api).state().kv,
+                final(api).state().kv_handles == old(api).state().kv_handles,
+                final(api).state().fields == old(api).state().fields,
+                final(api).state().handles == old(api).state().handles,
+                final(api).state().features == old(api).state().features,
+                ret matches Err(e) ==> (e.is_application_error() ==>
+                    (e == nfrm_err(NonFungibleResourceManagerError::DropNonEmptyBucket)
+                        && old(api).state().objects.contains_key(bucket.0.0) && bucket_ids(old(api).state().objects[bucket.0.0]).len() > 0)
+                    || (e is ApplicationError && e->ApplicationError_0 is BucketError)),
+        @*/
         /*@fn radix-engine/src/blueprints/resource/non_fungible/non_fungible_resource_manager.rs :: impl NonFungibleResourceManagerBlueprint :: fn update_non_fungible_data
         @sig
             requires wf_fields(old(api).state()), data_wf(old(api).state(), id)
